@@ -68,6 +68,8 @@ def build(sel):
         arr.set_annotation("charge", np.array([0, 1, -1, 0, 2, -2], dtype=int))
     if opt & 8:
         arr.set_annotation("atom_id", np.array([7, 8, 9, 20, 21, 22], dtype=int))
+        # entity numbers as they stand after a selection / reordering (not 1, 2, ... by first appearance)
+        arr.set_annotation("label_entity_id", np.array(["3", "3", "3", "1", "1", "1"]))
     if opt & 1 and opt & 2:
         # a free-text extra field with awkward values (quotes, primes, blanks)
         arr.set_annotation("note", np.array(["5' end", "a b", 'say "x"', "it's", "plain", "O5'"]))
@@ -113,8 +115,9 @@ def compare(a, b, opt, with_bonds, coord_rtol=0.0):
     if not (np.array_equal(np.asarray(a.coord), np.asarray(b.coord)) if coord_rtol == 0 else
             np.allclose(np.asarray(a.coord, dtype=float), np.asarray(b.coord, dtype=float), rtol=coord_rtol, atol=0)):
         return f"coord differ: written {np.asarray(a.coord).tolist()} read {np.asarray(b.coord).tolist()}"
-    for bit, cat in ((1, "b_factor"), (2, "occupancy"), (4, "charge"), (8, "atom_id"), (3, "note")):
-        if opt & bit == bit and a.get_annotation(cat).tolist() != b.get_annotation(cat).tolist():
+    for bit, cat in ((1, "b_factor"), (2, "occupancy"), (4, "charge"), (8, "atom_id"), (3, "note"), (8, "label_entity_id")):
+        if opt & bit == bit and [str(x) if cat == "label_entity_id" else x for x in a.get_annotation(cat).tolist()] != \
+                [str(x) if cat == "label_entity_id" else x for x in b.get_annotation(cat).tolist()]:
             return f"{cat}: written {a.get_annotation(cat).tolist()} read {b.get_annotation(cat).tolist()}"
     if (a.box is None) != (b.box is None):
         return "box presence"
@@ -135,7 +138,7 @@ def check_roundtrip(sel):
     if atoms is None:
         return None
     opt, with_bonds = sel["opt"], sel["bond"] >= 0
-    extra = [c for bit, c in ((1, "b_factor"), (2, "occupancy"), (4, "charge"), (8, "atom_id")) if opt & bit]
+    extra = [c for bit, c in ((1, "b_factor"), (2, "occupancy"), (4, "charge"), (8, "atom_id"), (8, "label_entity_id")) if opt & bit]
     user_fields = ["note"] if (opt & 3) == 3 else []
     extra = extra + user_fields
     results = {}
